@@ -178,6 +178,7 @@ func generate(w *World, cs *Contracts, ms *ModSets, o runOpts) ([]*Obligation, [
 		name := ud.Pkg + "." + ud.Type + "." + ud.Field
 		rep := &FuncReport{Key: "unique " + name}
 		reps = append(reps, rep)
+		uniqueCS = cs
 		bad := uniqueViolations(w, ud)
 		ob := &Obligation{Name: name + ":unique.writers", Kind: "unique", Func: name, Goal: "true", Props: ud.Props,
 			Text:   "every store into " + name + " stores a map/slice/object freshly created in the storing function",
@@ -492,6 +493,12 @@ func uniqueViolations(w *World, ud UniqueDecl) []string {
 						if v.IsNil() {
 							continue
 						}
+					case *ssa.Call:
+						if callee := v.Call.StaticCallee(); callee != nil {
+							if spec := uniqueCS.Funcs[funcKey(callee)]; spec != nil && promisesFresh(spec) {
+								continue
+							}
+						}
 					}
 					bad = append(bad, funcKey(f)+" at "+w.Fset.Position(st.Pos()).String())
 				}
@@ -500,4 +507,16 @@ func uniqueViolations(w *World, ud UniqueDecl) []string {
 	}
 	sort.Strings(bad)
 	return bad
+}
+
+var uniqueCS *Contracts
+
+// promisesFresh: some postcondition of the contract states that the (first) result is a fresh object.
+func promisesFresh(spec *FuncSpec) bool {
+	for _, e := range spec.Ensures {
+		if strings.Contains(e.Text, "fresh(") {
+			return true
+		}
+	}
+	return false
 }
